@@ -80,6 +80,13 @@ Theorem c18_run_reachable : forall c fuel s sched tr,
 Proof. exact run_sched_reachable. Qed.
 Print Assumptions c18_run_reachable.
 
+(* no livelock: every schedule of every valid configuration reaches a terminal state within 60 steps, so the
+   `terminal` hypotheses above are met by every complete run *)
+Theorem c18_every_schedule_terminates : forall c sched fuel,
+  valid c = true -> 60 <= fuel -> terminal (fst (run_sched c fuel (init c) sched [])).
+Proof. exact every_schedule_terminates. Qed.
+Print Assumptions c18_every_schedule_terminates.
+
 (* non-vacuity: future_conv with a throwing converter, resolver thread overtaking the registration between its
    ready check and its subscription; the final state is terminal and meets the hypotheses *)
 Example c18_nonvacuous :
